@@ -2,6 +2,7 @@
 from checks import codec_common as cc
 from vlib.core import hx
 
+LEVEL = "translation_validation"
 MODULES = []
 THEOREMS = []
 
